@@ -592,6 +592,13 @@ func famFaultCrash(c *mon.Ctx) {
 				k.Count("faultcrash.fault-timeline-unusable", 1)
 				continue
 			}
+			if fr.e.rolledBack > 0 {
+				// the failed call made a Close fail and the reopened store had (legitimately) lost acknowledged commits
+				// that were not durable yet: the child's count of acknowledged commits no longer indexes the states of
+				// this timeline, so the prefix window cannot be derived from its log. Not judged.
+				k.Count("faultcrash.timeline-with-lost-undurable-commits-not-judged", 1)
+				continue
+			}
 			states := fr.e.states
 			payload, _ := json.Marshal(crashPayload{Seed: ps, Cfg: cf, FailAt: j})
 			kills := []int{j + 1 + k.Rand.Intn(min(12, len(evs)-j)), j + 1 + k.Rand.Intn(len(evs)-j)}
